@@ -104,10 +104,11 @@ impl Monitor for C17 {
             ("calls_compared_with_clean_twin", tier.pick(40_000, 800_000)),
             ("squatter_cases_entry_untouched", tier.pick(200, 5_000)),
             ("non_utf8_named_foreign_files_newer_than_live_wal_files", tier.pick(1_000, 20_000)),
+            ("foreign_sockets_named_like_wal_files", tier.pick(1_000, 20_000)),
         ]
     }
     fn rule(&self) -> String {
-        "case = one generated roll-over/GC-heavy history run on a directory seeded (before the first open and again between restarts) with foreign entries: near-miss names (19/21 digits, non-digit, other case/prefix, number not fitting u64, non-ASCII digits with a 24-byte name, 24-byte names with a multi-byte character across byte 4, names that are not valid UTF-8 (also created after the live WAL files), trailing newline, dot-prefixed), ordinary files, and sub-directories / symlinks (to a WAL file, dangling) named exactly like WAL files with numbers outside the live range; at some restarts the valid WAL files are renumbered with gaps; evaluation = one traced path-carrying syscall (open/create/read/write/ftruncate/unlink/rename) whose basename must match ^wal-[0-9]{20}$ and refer to a regular file (the directory itself may be opened read-only), or one foreign entry re-verified (type, size, content hash, link target) or one call compared with a twin log running the same history on a clean directory; one case in eight is a 'squatter' scenario: a symlink to a file outside the directory / a dangling symlink / a sub-directory sits exactly at the next file name the library will create; the call may fail with an I/O error but nothing may be written through, created or replaced; distinct_nontrivial = distinct (foreign name, syscall kind it coexisted with) pairs and distinct path-event kinds x file numbers".into()
+        "case = one generated roll-over/GC-heavy history run on a directory seeded (before the first open and again between restarts) with foreign entries: near-miss names (19/21 digits, non-digit, other case/prefix, number not fitting u64, non-ASCII digits with a 24-byte name, 24-byte names with a multi-byte character across byte 4, names that are not valid UTF-8 (also created after the live WAL files), trailing newline, dot-prefixed), ordinary files, and sub-directories / symlinks (to a WAL file, dangling) / a unix socket named exactly like WAL files with numbers outside the live range; at some restarts the valid WAL files are renumbered with gaps; evaluation = one traced path-carrying syscall (open/create/read/write/ftruncate/unlink/rename) whose basename must match ^wal-[0-9]{20}$ and refer to a regular file (the directory itself may be opened read-only), or one foreign entry re-verified (type, size, content hash, link target) or one call compared with a twin log running the same history on a clean directory; one case in eight is a 'squatter' scenario: a symlink to a file outside the directory / a dangling symlink / a sub-directory sits exactly at the next file name the library will create; the call may fail with an I/O error but nothing may be written through, created or replaced; distinct_nontrivial = distinct (foreign name, syscall kind it coexisted with) pairs and distinct path-event kinds x file numbers".into()
     }
     fn assumptions(&self) -> Vec<String> {
         vec!["sub-directories / symlinks named exactly like WAL files are only placed at numbers the log will never create (below the oldest live file or above 2^40): a name collision with a future file makes create fail with an I/O error, which the statement does not forbid".into()]
@@ -164,6 +165,14 @@ impl Monitor for C17 {
         if std::os::unix::fs::symlink("/nonexistent/target", dir.join(&far_dangling)).is_ok() {
             foreign_names.push(far_dangling.clone());
             acc.count("foreign_dirs_or_symlinks_named_like_wal_files");
+        }
+        // a unix socket named like a WAL file (neither a regular file, nor a directory, nor a
+        // symlink); kept alive for the whole case
+        let far_socket = format!("wal-{:020}", far + 3);
+        let _socket_guard = std::os::unix::net::UnixListener::bind(dir.join(&far_socket)).ok();
+        if _socket_guard.is_some() {
+            foreign_names.push(far_socket.clone());
+            acc.count("foreign_sockets_named_like_wal_files");
         }
         let mut expected = foreign_state(&dir, &foreign_names);
 
